@@ -1,12 +1,16 @@
+#include <csignal>
+#include <fstream>
 #include "scripted_backend.h"
 #include <fstream>
 #include "mp/env.h"
 #include "mp/flat/model_api_base.h"
 
 namespace {
+verif::RecModel *g_model = nullptr;
+volatile sig_atomic_t g_cb = 0, g_cb_bad = 0;
+// the backend's interrupt callback, registered with the model object as data
 bool InterruptScripted(void *p) {
-  auto *m = (verif::RecModel *)p;
-  if (m && m->rec) { fprintf(m->rec, "{\"e\":\"InterruptCallback\"}\n"); fflush(m->rec); }
+  if (p && p == g_model) ++g_cb; else ++g_cb_bad;
   return true;
 }
 }  // namespace
@@ -44,6 +48,7 @@ void Script::Load() {
     else if (key == "abort") ss >> abort_code;
     else if (key == "warn") ss >> n_warn;
     else if (key == "poll") ss >> poll_stop;
+    else if (key == "sig") { std::string nm; ss >> sig_where >> nm >> sig_n; sig_no = nm == "TERM" ? SIGTERM : SIGINT; }
     else if (key == "hist") {        // hist <pre|post> <kind> | vars v.. | cons <g> v.. | cons <g> v..
       Xfer x; ss >> x.dir >> x.kind;
       std::string t; std::vector<double> *cur = nullptr;
@@ -99,14 +104,40 @@ void ScriptedBackend::InitCustomOptions() {
 }
 
 void ScriptedBackend::SetInterrupter(mp::Interrupter *inter) {
+  Ev("SetInterrupter");
   inter_ = inter;
+  g_model = lp();
   inter->SetHandler(InterruptScripted, lp());
+}
+
+void ScriptedBackend::DoWriteProblem(const std::string &name) {
+  if (auto f = lp()->rec) { fprintf(f, "{\"e\":\"WriteProblem\",\"file\":%s}\n", verif::jstr(name.c_str()).c_str()); fflush(f); }
+  std::ofstream out(name);
+  out << "scripted model export\n";
+  if (!out) MP_RAISE("cannot write " + name);
+}
+
+// sig <where> <INT|TERM> <n>: n signals arrive at this place, one after the other; after each one record how many
+// times the registered callback ran (with the registered data / with something else) and what Stop() says
+void ScriptedBackend::RaiseAt(const char *where) {
+  if (script_.sig_where != where) return;
+  for (int i = 0; i < script_.sig_n; ++i) {
+    int cb0 = g_cb, bad0 = g_cb_bad;
+    if (auto f = lp()->rec) { fprintf(f, "{\"e\":\"Raise\",\"at\":\"%s\",\"sig\":\"%s\"}\n", where, script_.sig_no == SIGTERM ? "TERM" : "INT"); fflush(f); }
+    fflush(stdout);
+    raise(script_.sig_no);
+    if (auto f = lp()->rec) {
+      fprintf(f, "{\"e\":\"Raised\",\"cb\":%d,\"bad\":%d,\"stop\":%d}\n", (int)(g_cb - cb0), (int)(g_cb_bad - bad0), (int)interrupter()->Stop());
+      fflush(f);
+    }
+  }
 }
 
 void ScriptedBackend::Solve() {
   Ev("Solve");
+  RaiseAt("solve");
   for (int i = 0; i < script_.poll_stop; ++i)
-    if (auto f = lp()->rec) { fprintf(f, "{\"e\":\"Poll\",\"stop\":%d}\n", (int)inter_->Stop()); fflush(f); }
+    if (auto f = lp()->rec) { fprintf(f, "{\"e\":\"Poll\",\"stop\":%d}\n", (int)interrupter()->Stop()); fflush(f); }
   if (script_.raise_at == 1) MP_RAISE("scripted failure in Solve");
   if (script_.abort_code >= 0) Abort(script_.abort_code, "scripted abort " + std::to_string(script_.abort_code));
 }
@@ -246,6 +277,7 @@ void ScriptedBackend::RunHistory() {
 
 void ScriptedBackend::ReportResults() {
   Ev("ReportResults");
+  RaiseAt("report");
   RunHistory();
   if (script_.raise_at == 2) MP_RAISE("scripted failure in ReportResults");
   SetStatus({script_.status, script_.status_msg});
